@@ -44,6 +44,7 @@ def gen_case(rng):
     net = netkit.gen_network(rng, policies=("MunkresDecision", "MyopicNaiveGreedyDecision", "AllVisibleDecision"), max_sensors=3, max_targets=4)
     phys, out = rng.choice(STEP_PAIRS)
     net["step"] = phys
+    netkit.maybe_sub_second_start(net, rng)
     net["init_pos_std"] = rng.choice([1e-3, 1e-3, 5.0])  # km; with a 0.5 deg field of view 5 km produces FIELD_OF_VIEW misses
     if rng.random() < 0.5:
         # narrow fields of view + a few km of initial estimate error: FIELD_OF_VIEW misses (tasking only happens for pairs
